@@ -265,6 +265,7 @@ func (u *Unit) verifyFunction(known []KnownFinding, prop string) {
 	st := &State{cells: map[*Cell]Val{}, heaps: map[string]Term{}, ghostCalled: map[string]Term{}}
 	st.alloc = u.fresh("alloc0", "Int")
 	alloc0 := st.alloc
+	u.entryAlloc = alloc0
 	u.assume(tTrue, app("Bool", ">", st.alloc, intLit(0)))
 	fr := u.newFrame(fn, nil)
 	fr.top = true
